@@ -125,9 +125,13 @@ pub fn pool(_mode: &TransportMode) -> Vec<DescSpec> {
         /* 13 */ DescSpec::new(vec![]),
         /* 14 */ { let mut a = a0.clone(); a.mid = Some("65535".into()); let mut b = audio(Some("3"), vec![pcmu()]); b.dir = "recvonly";
                    let mut d = DescSpec::new(vec![a, b]); d.bundle = false; d },
+        /* 15 */ { let mut a = a0.clone(); a.setup = None; let mut d = DescSpec::new(vec![a]); d.session_setup = Some("passive"); d.session_version = 4; d }, // a=setup at session level only
+        /* 16 */ { let mut a = a0.clone(); a.setup = Some("passive"); let mut d = DescSpec::new(vec![a]); d.session_version = 5; d },  // the offerer takes the other DTLS role
+        /* 17 */ { let mut v = v1.clone(); v.extmaps.push(("15".to_string(), URI_TWCC.to_string())); v.dir = "sendrecv";
+                   let mut d = DescSpec::new(vec![a_changed.clone(), v]); d.session_version = 6; d }, // re-offer: first section changed, second with extension id 15
     ]
 }
-pub const NPOOL: usize = 15;
+pub const NPOOL: usize = 18;
 
 fn parse_desc(ty: SdpType, text: &str) -> SessionDescription {
     SessionDescription::parse(ty, text).expect("harness-generated SDP must parse")
@@ -261,7 +265,8 @@ fn desc_token(t: &mut Tables, d: &SessionDescription) -> String {
     let id = t.desc_id(d);
     if t.sent.contains(&id) { return format!("@{id}"); }
     t.sent.push(id);
-    format!("{}|{}|{}|{}|{}|{}", ty_ch(d.sdp_type), id, t.eq_id(d), fp, if groups.is_empty() { "_".into() } else { groups.join("+") },
+    let ssu = d.session.attributes.iter().find(|a| a.key == "setup" && a.value.is_some()).and_then(|a| a.value.as_ref()).map(|v| hx(v)).unwrap_or("~".into());
+    format!("{}|{}|{}|{}|{}|{}|{}", ty_ch(d.sdp_type), id, t.eq_id(d), fp, if groups.is_empty() { "_".into() } else { groups.join("+") }, ssu,
         if secs.is_empty() { "_".into() } else { secs.join(";") })
 }
 
@@ -341,6 +346,10 @@ fn diff_fields(a: &Observation, b: &Observation) -> Vec<&'static str> {
         add(p.receiver_rtx_ssrc != q.receiver_rtx_ssrc, "receiver.rtx_ssrc");
         add(p.receiver_rtx_apt != q.receiver_rtx_apt, "receiver.rtx_apt");
         add(p.receiver_simulcast_rids != q.receiver_simulcast_rids, "receiver.simulcast");
+        add(p.sender_ssrc != q.sender_ssrc, "sender.ssrc");
+        add(p.sender_rtx_ssrc != q.sender_rtx_ssrc || p.sender_rtx_payload_type != q.sender_rtx_payload_type, "sender.rtx");
+        add(p.sender_stream_id != q.sender_stream_id || p.sender_track_id != q.sender_track_id, "sender.stream");
+        add(p.pending_sdes_mid != q.pending_sdes_mid, "sender.pending_sdes_mid");
     }
     add(x.next_mid != y.next_mid, "next_mid");
     add(x.remote_dtls_fingerprint != y.remote_dtls_fingerprint, "remote_dtls_fingerprint");
@@ -460,8 +469,9 @@ pub async fn exec(sc: &Script) -> Outcome {
                         // description, or more than the connection counters for the SRTP site — is a new defect.
                         let allowed: &[&str] = match site {
                             "rtp-media-transport-bind" => &["remote", "transceivers", "senders-receivers", "conn"],
-                            "srtp-start-direct-no-candidate" => &["conn"],
-                            "offer-socket-bind" => &["transceivers", "conn"],
+                            // since the round-3 fixes both SDES-SRTP sites fail before anything is recorded
+                            "srtp-start-direct-no-candidate" => &[],
+                            "offer-socket-bind" => &[],
                             _ => &[] };
                         let extra: Vec<&str> = groups.iter().copied().filter(|g| !allowed.contains(g)).collect();
                         let sig = if extra.is_empty() { format!("atom:{cls}:{st}:{}:{site}", mode_ch(&sc.mode)) }
@@ -537,6 +547,8 @@ fn alphabet_b() -> Vec<Call> {
         Call::SetRemote(Src::Pool(9), Offer),
         Call::SetLocal(Src::Modified(1), Offer),
         Call::SetRemote(Src::Pool(14), Offer),
+        Call::SetRemote(Src::Pool(15), Offer),
+        Call::SetRemote(Src::Pool(16), Offer),
         Call::Close,
     ]
 }
@@ -549,6 +561,7 @@ fn prefixes_b() -> Vec<(&'static str, Vec<Call>)> {
     vec![
         ("fresh", vec![]),
         ("negotiated_answerer", vec![Call::SetRemote(Src::Pool(1), Offer), Call::CreateAnswer, Call::SetLocal(Src::Last, Answer)]),
+        ("negotiated_offerer", vec![Call::CreateOffer, Call::SetLocal(Src::Last, Offer), Call::SetRemote(Src::AnswerTo(0), Answer)]),
     ]
 }
 
@@ -653,8 +666,10 @@ pub fn run(args: &Args) {
     // (1b) second exhaustive family (length 3; WebRTC and RTP modes)
     let alb = alphabet_b();
     let nb = alb.len().pow(3);
-    for mode in [TransportMode::WebRtc, TransportMode::Rtp] {
+    for mode in [TransportMode::WebRtc, TransportMode::Rtp, TransportMode::Srtp] {
         for (pname, pre) in prefixes_b() {
+            // quick tier: SDES-SRTP with the fresh prefix only, and the third prefix (negotiated as offerer) in the thorough tier only
+            if !args.tier_thorough && ((mode == TransportMode::Srtp && pname != "fresh") || pname == "negotiated_offerer") { continue; }
             for idx in 0..nb {
                 let mut calls = pre.clone();
                 let mut k = idx;
@@ -701,7 +716,9 @@ pub fn run(args: &Args) {
     run.count_n("bind_fails_exhaustiveB_len2_r", alb.len().pow(2) as u64);
     for sc in ["r!/a0,v0/srP1o;ca", "r!/a0/slP0o;srA0a", "r!/a0/slP0o;srA0p;srA0a", "r!//srP12o;ca", "r!/a0/srP13o", "r!/a0/srP3o;ca",
                "r!/a0,a0/srP9o;ca", "r!/v0/srP4o;ca", "r!/a0/slP0o;srA0a;srP11o", "s!/a0/co", "s!/a0/srP0o;ca", "s!/a0/slP0o;srA0a",
-               "s!/a0t,v2/co", "s!/a0t,v2/srP1o", "s!/a0/slP0o;srA0p", "w!/a0/co;slLo;srA0a", "w!/a0/srP0o;ca;slLa"] {
+               "s!/a0t,v2/co", "s!/a0t,v2/srP1o", "s!/a0/slP0o;srA0p", "s!/a0t,v2,a3/srP11o", "s!/a0t,v2,a3/srP4o", "s!/a0t,v2,a3/co;co", "w!/a0/co;slLo;srA0a", "w!/a0/srP0o;ca;slLa",
+               "w/a0/srP0o;ca;slLa;ds;srP16o;ca", "w/a0/srP0o;ca;slLa;srP16o;ca", "w/a0/srP15o;ca;slLa;srP0o", "w/a0/co;slLo;srA0p;srA0a",
+               "w/a0t,v2,a3/srP1o;ca;slLa;srP17o;ca", "s/a0t,v2,a3/srP1o;ca;slLa;srP17o", "w/a0t,v2,a3/srP1o;srP17o"] {
         emit(&mut run, &mut rt, &parse_script(sc));
         run.count("bind_fails_directed");
     }
